@@ -1384,6 +1384,12 @@ class SpaceManager(SharedSpaceOperations):
 
         for subspace in self._get_subs(space):
             if name in subspace.cells:
+                derived = subspace.cells[name]
+                if (derived.is_derived() and self.get_deriv_bases(
+                        derived, defined_only=True)[0] is cells):
+                    # Derived from a later base so far
+                    subspace.clear_subs_rootitems()
+                    derived.on_inherit(self, [cells])
                 continue
             else:
                 subspace.clear_subs_rootitems()
